@@ -10,7 +10,7 @@
               unfinished processes are blocked is printed with a schedule. In parallel spec/MC_LocksModel.tla checks
               the model itself on hand-written programmes (discipline passes, typical breaks deadlock).
   3. REPLAY   each counterexample schedule is executed on the real code by `lockobs replay` (goroutines gated at the
-              "want" hook, then all gates opened, 3 s watchdog). Commands that never return = real deadlock =
+              "want" hook, then all gates opened, 20 s watchdog). Commands that never return = real deadlock =
               violation. A model deadlock that does not reproduce is printed as DIVERGENCE and counted.
 On the unchanged tree TLC finds no deadlock, so nothing is replayed."""
 import concurrent.futures, itertools, json, os, random, subprocess, sys, threading, time
@@ -488,7 +488,7 @@ def run(v, cov, tier, seed):
                 v.report({"branch": "lockorder." + sig, "kind": "deadlock", "detail": detail},
                          {"commands": rec.get("commands"), "stripes": spec["stripes"], "schedule": spec["sched"], "model_segments": segs,
                           "replay": rec, "spec": spec},
-                         what="real deadlock: commands never returned (3 s watchdog, all gates open) after replaying TLC's schedule; %s; stripes not free: %s; ownership as predicted by the model: %s" % (
+                         what="real deadlock: commands never returned (20 s watchdog, all gates open) after replaying TLC's schedule; %s; stripes not free: %s; ownership as predicted by the model: %s" % (
                              stuck, rec.get("stripes_not_free"), rec.get("as_predicted")))
             else:
                 divergences += 1
